@@ -3,6 +3,7 @@ package c20
 import (
 	"bytes"
 	"fmt"
+	"image"
 	"image/color"
 	"image/png"
 	"math"
@@ -433,6 +434,15 @@ func execStep(env *Env, task int, st *Step) Result {
 	case "richtext":
 		face := stepFace(env, st)
 		rt := canvas.NewRichText(face)
+		switch st.WMode {
+		case 1:
+			rt.SetWritingMode(canvas.VerticalRL)
+		case 2:
+			rt.SetWritingMode(canvas.VerticalLR)
+		}
+		if st.WMode != 0 {
+			rt.SetTextOrientation([]canvas.TextOrientation{canvas.Natural, canvas.Upright, canvas.Natural}[st.Orient%3])
+		}
 		words := strings.Fields(st.Text)
 		other := env.Font(st.Font+1).Face(st.Size*0.8, color.RGBA{200, 0, 0, 255}, decos[(st.Deco+1)%len(decos)]...)
 		for i, w := range words {
@@ -641,6 +651,8 @@ func drawCanvas(env *Env, d *Drawing) *canvas.Canvas {
 				ctx.SetDashes(0, it.Dashes...)
 			}
 			ctx.DrawPath(it.X, it.Y, buildPath(it.Shape))
+		case "image":
+			ctx.DrawImage(it.X, it.Y, genImage(&it), canvas.DPMM(it.Res))
 		case "text":
 			f := env.Font(it.Font)
 			face := f.Face(it.Size, color.RGBA{it.Fill[0], it.Fill[1], it.Fill[2], 255}, decos[it.Deco%len(decos)]...)
@@ -654,17 +666,59 @@ func drawCanvas(env *Env, d *Drawing) *canvas.Canvas {
 	return c
 }
 
+// genImage builds the small test image of a drawing item (a new object on every call).
+func genImage(it *DrawItem) image.Image {
+	r := simrt.NewRand(it.ImgSeed)
+	rect := image.Rect(0, 0, it.ImgW, it.ImgH)
+	px := func() (uint8, uint8, uint8, uint8) {
+		a := uint8(255)
+		if it.ImgKind == 1 || it.ImgKind == 2 {
+			a = []uint8{255, 255, 128, 0, 37}[r.Intn(5)]
+		}
+		return uint8(r.Intn(4) * 85), uint8(r.Intn(4) * 85), uint8(r.Intn(4) * 85), a
+	}
+	switch it.ImgKind {
+	case 2:
+		img := image.NewNRGBA(rect)
+		for i := 0; i < len(img.Pix); i += 4 {
+			img.Pix[i], img.Pix[i+1], img.Pix[i+2], img.Pix[i+3] = px()
+		}
+		return img
+	case 3:
+		img := image.NewGray(rect)
+		for i := range img.Pix {
+			img.Pix[i] = uint8(r.Intn(256))
+		}
+		return img
+	}
+	img := image.NewRGBA(rect)
+	for i := 0; i < len(img.Pix); i += 4 {
+		cr, cg, cb, ca := px()
+		// premultiplied
+		img.Pix[i], img.Pix[i+1], img.Pix[i+2], img.Pix[i+3] = uint8(uint16(cr)*uint16(ca)/255), uint8(uint16(cg)*uint16(ca)/255), uint8(uint16(cb)*uint16(ca)/255), ca
+	}
+	return img
+}
+
 func renderOnce(c *canvas.Canvas, d *Drawing, st *Step) Result {
 	sink := &faultySink{failAt: st.FailAt}
 	buf := sink
 	var err error
 	switch st.Format {
 	case "pdf":
-		r := pdf.New(buf, d.W, d.H, &pdf.Options{Compress: st.Opt&1 != 0, SubsetFonts: st.Opt&2 != 0, ImageEncoding: canvas.Lossless})
+		enc := canvas.Lossless
+		if st.Opt&4 != 0 {
+			enc = canvas.Lossy
+		}
+		r := pdf.New(buf, d.W, d.H, &pdf.Options{Compress: st.Opt&1 != 0, SubsetFonts: st.Opt&2 != 0, ImageEncoding: enc})
 		c.RenderTo(r)
 		err = r.Close()
 	case "svg":
-		r := svg.New(buf, d.W, d.H, &svg.Options{EmbedFonts: st.Opt&1 != 0, SubsetFonts: st.Opt&2 != 0, SizeUnits: "mm", ImageEncoding: canvas.Lossless})
+		enc := canvas.Lossless
+		if st.Opt&4 != 0 {
+			enc = canvas.Lossy
+		}
+		r := svg.New(buf, d.W, d.H, &svg.Options{EmbedFonts: st.Opt&1 != 0, SubsetFonts: st.Opt&2 != 0, SizeUnits: "mm", ImageEncoding: enc})
 		c.RenderTo(r)
 		err = r.Close()
 	case "ps", "eps":
